@@ -8,6 +8,9 @@ SLOT = "emit_core::runtime::std_support::AmbientSlot::"
 EMPTY = "emit_core::empty::Empty"
 
 
+OVERLAYS = ('K2b',)
+
+
 def run(chk):
     P = mir.Program("K1")
     chk.use_program(P)
@@ -46,6 +49,8 @@ def run(chk):
             return False, ("the runtime slot's OnceLock is used through %s at %s: only new/get/set keep 'assigned at most once, "
                            "published whole' (get_or_init/take/get_mut would let a second initialiser win or replace the runtime)"
                            % (bad, used[bad[0]][0])), [], used[bad[0]][0]
+        if not used:
+            raise mir.AnchorMissing("uses of the slot's OnceLock")
         if set(used) != {"new", "get", "set"}:
             return False, "expected new, get and set to be used (found %s)" % sorted(used), [], None
         if len(used["set"]) != 1:
@@ -254,6 +259,8 @@ def run(chk):
     # ---- R5 -------------------------------------------------------------------------------------------------------------
     def bounds():
         us = [i for i in P.impls if i["self_ty"] == "emit_core::runtime::std_support::AmbientSync" and i.get("trait") in ("core::marker::Send", "core::marker::Sync")]
+        if not us and "emit_core::runtime::std_support::AmbientSync" not in P.adts:
+            raise mir.AnchorMissing("emit_core::runtime::std_support::AmbientSync")
         if len(us) != 2:
             return False, "expected unsafe Send and Sync impls for AmbientSync", [], None
         for i in us:
@@ -289,6 +296,11 @@ def run(chk):
                 bl = [c for c in eb.calls(normal_only=True) if c.callee.get("name") == "build"]
                 if len(bl) != 1 or len(bl[0].args) != 5:
                     return False, "the no_std empty runtime is not Runtime::build of five components", [], eb.span
+                en = [k for k in P2.bodies if k.endswith("no_std_support::AmbientSlot::is_enabled")]
+                if not en:
+                    raise mir.AnchorMissing("no_std_support::AmbientSlot::is_enabled")
+                if common.const_return(P2.body(en[0])) is not False:
+                    return False, "the no_std slot can never be initialised, yet is_enabled() is not constant false", [], P2.body(en[0]).span
                 return True, "", [b.span]
             chk.ob("C20.K2a.R3:no_std-slot", "without std the slot is permanently the constant runtime of five Empty components", nostd)
         except SystemExit as e:
